@@ -418,6 +418,9 @@ def build(v, world: LoadedWorld | None = None):
         return _build(v, world)
 
 
+_KEEP: list = []
+
+
 def _build(v, w):
     if v is None or isinstance(v, (bool, int, str)):
         return v
@@ -441,6 +444,14 @@ def _build(v, w):
     if tag == "$mvs":  # a window onto a larger read-only buffer (header + payload + trailer)
         body = bytes.fromhex(a)
         return memoryview(b"\x02LEN=0042;" + body + b";CRC=1f\x03")[10:10 + len(body)]
+    if tag == "$mm":  # a read-only view of a shared mapping (a message slot): hashable, yet its content can change
+        import mmap
+
+        data = bytes.fromhex(a)
+        mm = mmap.mmap(-1, max(1, len(data)))
+        mm.write(data)
+        _KEEP.append(mm)
+        return memoryview(mm)[: len(data)].toreadonly()
     if tag == "$mvws":  # the same over a writable buffer
         body = bytes.fromhex(a)
         return memoryview(bytearray(b"\x02LEN=0042;" + body + b";CRC=1f\x03"))[10:10 + len(body)]
